@@ -1,5 +1,5 @@
 import Qats.Model.Motion
-import Qats.Lemmas.RealOps
+import Qats.Lemmas.RealOpsSimp
 import Qats.Lemmas.MotionGrad
 import Mathlib.Tactic
 /-!
@@ -18,17 +18,13 @@ noncomputable def rotZ (r : ℝ) (v : V3 ℝ) : V3 ℝ := ⟨Real.cos r * v.x - 
 def normSq (v : V3 ℝ) : ℝ := v.x ^ 2 + v.y ^ 2 + v.z ^ 2
 def sub3 (a b : V3 ℝ) : V3 ℝ := ⟨a.x - b.x, a.y - b.y, a.z - b.z⟩
 
-@[simp] theorem tcos_real (x : ℝ) : (TranscOps.cos x : ℝ) = Real.cos x := rfl
-@[simp] theorem tsin_real (x : ℝ) : (TranscOps.sin x : ℝ) = Real.sin x := rfl
-@[simp] theorem tpi_real : (TranscOps.pi : ℝ) = Real.pi := rfl
-
 theorem V3.ext' {α : Type} {a b : V3 α} (hx : a.x = b.x) (hy : a.y = b.y) (hz : a.z = b.z) : a = b := by
   cases a; cases b; simp_all
 
 theorem rotate_eq_zyx' (rx ry rz : ℝ) (v : V3 ℝ) : rotate rx ry rz v = rotZ rz (rotY ry (rotX rx v)) := by
   apply V3.ext' <;>
   simp only [rotate, rotX, rotY, rotZ, mo_r00, mo_r01, mo_r02, mo_r10, mo_r11, mo_r12, mo_r20, mo_r21, mo_r22,
-    tcos_real, tsin_real] <;> ring
+    cos_real, sin_real] <;> ring
 
 theorem rotX_normSq (r : ℝ) (v : V3 ℝ) : normSq (rotX r v) = normSq v := by
   simp only [normSq, rotX]
@@ -71,7 +67,7 @@ theorem transform_zero_rotation' (deg : Bool) (pos ref : V3 ℝ) :
   simp only [transformStep, radians_zero, ite_self, rotate_zero]
 
 theorem radians_eq (d : ℝ) : radians d = d * (Real.pi / 180) := by
-  simp only [radians, tpi_real]; norm_num
+  simp only [radians, pi_real]; norm_num
 
 theorem transform_deg_rad' (pos ref : V3 ℝ) (rx ry rz : ℝ) :
     transformStep true pos rx ry rz ref =
